@@ -52,7 +52,7 @@ impl<'ast> Visit<'ast> for BodyScan {
     fn visit_expr_for_loop(&mut self, e: &'ast syn::ExprForLoop) {
         let (s, en) = rng(e.span());
         let (bs, be) = rng(e.body.span());
-        self.loops.push(json!({"kind":"for","start":s,"end":en,"body_start":bs,"body_end":be}));
+        self.loops.push(json!({"kind":"for","start":s,"end":en,"body_start":bs,"body_end":be,"pat":norm(&e.pat),"expr":norm(&e.expr)}));
         syn::visit::visit_expr_for_loop(self, e);
     }
     fn visit_expr_loop(&mut self, e: &'ast syn::ExprLoop) {
